@@ -142,7 +142,10 @@ def rule_arm(ctx):
     cn = local_canon(fn)
     stored = [s_ for s_ in walk_no_defs(fn.node) if isinstance(s_, ast.Assign) and is_self_attr(s_.targets[0], "autoPingPending")]
     ok = len(ping) == 1 and len(ping[0][1].args) == 1 and len(stored) == 1 and \
-        (norm.text(ping[0][1].args[0]) == "self.autoPingPending" or canon_text(fn, ping[0][1].args[0], cn) == canon_text(fn, stored[0].value, cn)) and \
+        (norm.text(ping[0][1].args[0]) == "self.autoPingPending" or canon_text(fn, ping[0][1].args[0], cn) == canon_text(fn, stored[0].value, cn) or
+         # a local bound in the same statement (`self.autoPingPending = payload = ...`) and nowhere else
+         (isinstance(ping[0][1].args[0], ast.Name) and any(isinstance(t_, ast.Name) and t_.id == ping[0][1].args[0].id for t_ in stored[0].targets) and
+          sum(1 for y_ in walk_no_defs(fn.node) if isinstance(y_, ast.Name) and isinstance(y_.ctx, ast.Store) and y_.id == ping[0][1].args[0].id) == 1)) and \
         stored[0].lineno <= ping[0][1].lineno
     ctx.ob("_sendAutoPing sends the payload it remembers as pending", ok, "ping payload differs from autoPingPending", fn.loc())
     # traffic instead of a pong discards the outstanding ping completely: a late pong for it must not match any more
